@@ -121,6 +121,14 @@ def gen_terms(tier):
         yield "private-index-right", ["einsum", "ik,ij->ik", A, m]
         yield "unit-partner", ["einsum", "ij,j->i", m, ["ph", "onev", [1], "float64"]]
         yield "unit-partner-matrix", ["einsum", "ij,jk->ik", m, ["ph", "rowm", [1, 3], "float64"]]
+    # integer operands scaled by non-integral scalars (the scalar must not be converted to the operands' dtype)
+    Ai, xi, Bi = ["ph", "Ai", [3, 3], "int64"], ["ph", "xi", [3], "int64"], ["ph", "Bi", [3, 3], "int64"]
+    for sc in (["py", 0.5], ["py", 2.5], ["nps", "float64", 1.5]):
+        yield "int-scaled", ["matmul", Ai, ["bin", "mul", xi, sc]]
+        yield "int-scaled", ["matmul", Ai, ["bin", "mul", sc, xi]]
+        yield "int-scaled", ["matmul", Ai, ["bin", "truediv", xi, sc]]
+        yield "int-scaled", ["matmul", ["bin", "mul", Bi, sc], Ai]
+        yield "int-scaled", ["einsum", "ij,j->i", Ai, ["bin", "add", ["bin", "mul", xi, sc], xi]]
     # two / three einsums with identical subscripts and shared leaves (cache reuse across einsums)
     for v in v1:
         for v2 in v1[:10]:
